@@ -23,7 +23,8 @@ Generic part (any protocol / interface types, any priority and override tables):
 * `history_routing`  … and calls are routed by `Best` with that holder.
 Table part (regenerated `Gen` tables, `decide`):
 * `default_prio_text`, `power_prio`, `relayer_prio`   the order written in the property;
-* `registered_in_prio`, `impl_provides`;
+* `registered_in_prio`, `impl_provides`, `setup_paths_agree` (tunnelled MRP, RAOP via AirPlay …
+                     register the same tables as the native set-up);
 * `routing`, `routing_not_supported`   the generic theorems instantiated for all 32 protocol
                      sets × all members × any holder;
 * `call_eq_route`, `call_gate_closed`  the facade member itself (play_url's feature gate).
@@ -245,6 +246,18 @@ theorem impl_provides (p : Proto) (m : Member) (h : impl p m = true) :
   have := this m (Member.mem_all m)
   simp only [h, Bool.not_true, Bool.false_or] at this
   exact this
+
+/-- The tables are extracted from the instances each protocol's own `setup()` yields.  Every
+    other way an instance gets registered (MRP over the AirPlay tunnel with/without a Companion
+    service in the configuration, RAOP set up by AirPlay, single-service configurations; see
+    tools/gen/c01.py PATH_SPECS) registers, for its protocol, the same interfaces overriding the
+    same members — so `routing` below holds whichever path set the connected protocols up. -/
+theorem setup_paths_agree :
+    (PyatvModel.Gen.C13.setupPaths.all fun e =>
+      e.provides == provides e.proto && e.implements == Member.all.filter (fun m => impl e.proto m)) = true := by
+  decide +kernel
+
+example : PyatvModel.Gen.C13.setupPaths.any (fun e => e.origin != e.proto) = true := by decide +kernel
 
 /-- **C01 on the real tables.**  For every set `S` of connected protocols, every member and
     every takeover state with at most one holder: the call goes to `p` iff `p` is connected,
